@@ -50,6 +50,23 @@ def emit(mems=(0, 1, 2, 3, 4)):
         for trait, fn in (('is_default_constructible', 'c10_default_constructible'), ('is_copy_constructible', 'c10_copy_constructible'),
                           ('is_destructible', 'c10_destructible'), ('is_abstract', 'c10_abstract'), ('is_polymorphic', 'c10_polymorphic')):
             out.append('static_assert(std::%s<%s>::value == %s(%s), "%s %s");' % (trait, name, fn, bits, trait, bits))
+    # one base class: class B { bits }; class A : public B { [void f();] int m; };
+    for dc, dcv, cc, ccv, dt, dtv, pv, mem in lattice((0,)):
+        if dt == 4 and dtv == 3:
+            continue            # ill-formed, see c10d_well_formed
+        for ov in (0, 1):
+            bn, an = 'B%d' % n, 'D%d' % n
+            n += 1
+            body = special(dc, dcv, '%s()' % bn) + special(cc, ccv, '%s(const %s &)' % (bn, bn)) + special(dt, dtv, '~%s()' % bn)
+            if pv:
+                body += '  public: virtual void f() = 0;\n'
+            body += '  public: int m;\n'
+            out.append('class %s {\n%s};' % (bn, body))
+            out.append('class %s : public %s {\n%s  public: int m;\n};' % (an, bn, '  public: void f();\n' if ov else ''))
+            bits = 'C10Bits{%d, %d, %d, %d, %d, %d, %d, %d}, %d' % (dc, dcv, cc, ccv, dt, dtv, pv, mem, ov)
+            for trait, fn in (('is_default_constructible', 'c10d_default_constructible'), ('is_copy_constructible', 'c10d_copy_constructible'),
+                              ('is_destructible', 'c10d_destructible'), ('is_abstract', 'c10d_abstract'), ('is_polymorphic', 'c10d_polymorphic')):
+                out.append('static_assert(std::%s<%s>::value == %s(%s), "derived %s %s");' % (trait, an, fn, bits, trait, bits))
     return '\n'.join(out) + '\n', n
 
 
@@ -66,7 +83,7 @@ def main():
         print('ORACLE DISAGREES WITH g++ (%d classes):' % n)
         print('\n'.join(errs[:40]))
         return 1
-    print('oracle agrees with g++ -std=c++17 on %d classes x 5 traits' % n)
+    print('oracle agrees with g++ -std=c++17 on %d classes (single classes and base/derived pairs) x 5 traits' % n)
     return 0
 
 
